@@ -276,6 +276,27 @@ CHECKS = {
    technique="Lean 4 proof (order and matrix algebra over ordered fields) + regenerated kernel bridge + scripted-draw and "
              "trace-driven correspondence",
    ref="DESIGN.md §4 C20"),
+ "C01": dict(
+   text="Assume-guarantee composition proved in Lean over the pipeline model (gate offers of minima, successful and "
+        "failed search records, merges, resets, and prunings, built on the C02 store and the C03/C05 gate): for ANY "
+        "sequence of such operations from the empty network, if every offered point carries its guarantee (minimum: in "
+        "box and energy = surface; record: C04's post-condition), then every stored minimum and transition state is "
+        "good and every stored transition state is not lower than either connected minimum by more than the matching "
+        "tolerance unless its push-off was flagged - the tolerance arises exactly because a found minimum may be "
+        "matched to a stored one (C01_barrier_from_matching); pruning preserves everything (survivors keep data and "
+        "connections). Trace-driven tie: the real NetworkSampling pipeline (Camelback, Schwefel, random cosine surfaces "
+        "in 2-5 dimensions with stationary points on and off the box faces; random order and repetition of get_minima, "
+        "get_transition_states with both schemes and bounds pruning, reconverge_minima, reconverge_landscape) runs with "
+        "the gate entry points, match relation, removal and reset wrapped from outside; the logged stream is replayed "
+        "through the model and must reproduce the real network after every public call; every offered point is checked "
+        "against the guarantee the theorem assumes; the property's clauses are re-evaluated on the real network after "
+        "every call.",
+   note="PARTIAL: that L-BFGS-B and the eigenvector-following iteration meet their contracts on a given surface is numerical "
+        "runtime behaviour (validated on every offered point, not proved); finiteness is monitored only; atomic systems "
+        "are covered by C07/C11/C14 pipelines, not by this trace.",
+   technique="Lean 4 proof (invariant by induction over all pipeline operation sequences, composed from the C02/C03/C05 "
+             "lemmas) + trace-driven correspondence of the real pipeline with contract validation per offered point",
+   ref="DESIGN.md §4 C01"),
 }
 
 NOT_YET = {}
